@@ -409,7 +409,7 @@ class HttpBeaconClient:
         self.counter += 1
 
         # Encrypt Callback data and transform into a request
-        packet = CallbackPacket(counter=self.counter, size=len(data), callback=callback_id, data=data)
+        packet = CallbackPacket(counter=self.counter, size=len(data), callback=BeaconCallback(callback_id), data=data)
         if self.writer:
             self.writer.write(c2packet_to_record(packet))
             self.writer.flush()
